@@ -13,6 +13,7 @@ import hashlib
 from collections import deque
 
 from pytableaux import _verif
+from .pool import trim_lex_cache
 from pytableaux.logics import registry
 from pytableaux.proof import Tableau
 from pytableaux.proof.common import QuitFlagNode
@@ -161,6 +162,7 @@ def execute(logic, argument, *, optname='default', mode='build', prefix=(), orde
 
     _verif.reset(order)
     _verif.scheduler = scheduler
+    trim_lex_cache()
     import signal
     old_handler = signal.signal(signal.SIGALRM, _on_alarm)
     outer_left = signal.setitimer(signal.ITIMER_REAL, timeout or EXEC_TIMEOUT_S)[0]
